@@ -45,7 +45,7 @@ var c13Features = []string{
 }
 
 func (c13) Thresholds(tier string) map[string]int64 {
-	th := map[string]int64{"lines": 50000, "attributes-checked": 80000, "through-a-script": 3000, "text-for-attribute-calls": 80000, "letters-supplied-by-interpolation": 2000}
+	th := map[string]int64{"lines": 50000, "attributes-checked": 80000, "through-a-script": 3000, "text-for-attribute-calls": 80000, "letters-supplied-by-interpolation": 2000, "same-name-metamorphic-pairs": 2500}
 	for _, f := range c13Features {
 		th["f:"+f] = 200
 	}
@@ -53,7 +53,7 @@ func (c13) Thresholds(tier string) map[string]int64 {
 }
 
 func (c13) Rule() string {
-	return "case = 100 lines generated with ground truth by construction: a sequence of <=12 items {text chunk (ASCII, multi-byte, CJK, astral, blanks), \\[ \\], open marker, close by name (any open one: overlaps), close-all, self-closing marker (with the documented white-space rule and trimwhitespace=false), replacement marker select/plural/ordinal/nomarkup (self-closing or closed by name, every case, % placeholder)}, markers with 0-3 properties of every value kind (12, 007, 1.05, 0.007, 2.50, true/False/TRUE, quoted incl. escapes, bare words, shorthand [a=v]), blanks inside markers, optional 'Name: ' prefix (ASCII / multi-byte), white space at either edge; the generator records for every marker the rune range it encloses in the final trimmed text. Each line is parsed directly (fresh parser value) and, for script-safe lines, shown through a dialogue (Line.Attributes), half of them with some plain letters outside the markers supplied by inline expressions (markup on interpolated text). Oracle: Text == ground truth; the attributes equal the ground truth as a multiset of (name, position, length, typed properties; floats with relative tolerance 1e-12); TextForAttribute(a) == the enclosed text. Non-trivial: >=2 markers of which two intersect, or a multi-byte rune before a marker, or a replacement marker. Distinct by hash of the line."
+	return "case = 100 lines generated with ground truth by construction: a sequence of <=12 items {text chunk (ASCII, multi-byte, CJK, astral, blanks), \\[ \\], open marker, close by name (any open one: overlaps), close-all, self-closing marker (with the documented white-space rule and trimwhitespace=false), replacement marker select/plural/ordinal/nomarkup (self-closing or closed by name, every case, % placeholder)}, markers with 0-3 properties of every value kind (12, 007, 1.05, 0.007, 2.50, true/False/TRUE, quoted incl. escapes, bare words, shorthand [a=v]), blanks inside markers, optional 'Name: ' prefix (ASCII / multi-byte), white space at either edge; the generator records for every marker the rune range it encloses in the final trimmed text. Each line is parsed directly (fresh parser value) and, for script-safe lines, shown through a dialogue (Line.Attributes), half of them with some plain letters outside the markers supplied by inline expressions (markup on interpolated text). Oracle: Text == ground truth; the attributes equal the ground truth as a multiset of (name, position, length, typed properties; floats with relative tolerance 1e-12); TextForAttribute(a) == the enclosed text. Metamorphic sub-workload (5 per case): a line with two markers of the same name open at once is parsed with and without an extra unrelated [zz]...[/zz] pair; no range is predicted (the pairing rule is not fixed by the property text) but the text each of the two encloses must not depend on the unrelated pair. Non-trivial: >=2 markers of which two intersect, or a multi-byte rune before a marker, or a replacement marker. Distinct by hash of the line."
 }
 
 func (c13) Assumptions() []string {
@@ -240,7 +240,8 @@ func (p c13) Run(c *core.Ctx) {
 			safe = append(safe, mc)
 		}
 	}
-	if len(safe) == 0 {
+	p.sameNameMetamorphic(c)
+	if c.Failed() || len(safe) == 0 {
 		return
 	}
 	// ---- the same lines shown by a dialogue runner; in half of them some plain letters outside the
@@ -312,4 +313,70 @@ func interpolateLetters(r *core.Rand, src string, st *mon.RecStorer, c *core.Ctx
 		}
 	}
 	return b.String()
+}
+
+// sameNameMetamorphic: two markers of the SAME name open at once. Which close marker ends which of them
+// is not fixed by the property text, so no range is predicted; but whatever the pairing rule is, it
+// cannot depend on an unrelated marker pair: the line is parsed with and without an extra [zz]...[/zz]
+// pair (which adds no text) and the text each of the two same-name markers encloses must be the same.
+func (c13) sameNameMetamorphic(c *core.Ctx) {
+	r := c.R
+	for rep := 0; rep < 5; rep++ {
+		t := func() string { return r.Pick("1", "deux", "3 ", "日", "é5", " x", "77") }
+		name := r.Pick("a", "wave", "é")
+		other := r.Pick("c", "q2")
+		// pieces of the base line; the unrelated pair is opened before pieces[open] and closed before pieces[close]
+		pieces := []string{t(), "[" + name + " k=1]", t(), "[" + other + "]", t(), "[" + name + " k=2]", t(), "[/" + name + "]", t(), "[/" + name + "]", t(), "[/" + other + "]", t()}
+		if r.Bool() {
+			// the other marker closes between the two same-name closes
+			pieces = []string{t(), "[" + name + " k=1]", t(), "[" + other + "]", t(), "[" + name + " k=2]", t(), "[/" + name + "]", t(), "[/" + other + "]", t(), "[/" + name + "]", t()}
+		}
+		base := strings.Join(pieces, "")
+		open := r.Intn(6)
+		close := r.Range(6, len(pieces)-1)
+		var v strings.Builder
+		for i, pc := range pieces {
+			if i == open {
+				v.WriteString("[zz]")
+			}
+			if i == close {
+				v.WriteString("[/zz]")
+			}
+			v.WriteString(pc)
+		}
+		variant := v.String()
+		enclosed := func(line string) (map[int]string, string) {
+			var lp markup.LineParser
+			res, err, pan := parseDirect(&lp, line)
+			if pan != "" {
+				return nil, "panic: " + pan
+			}
+			if err != nil {
+				return nil, "error: " + err.Error()
+			}
+			m := map[int]string{}
+			for _, a := range res.Attributes {
+				if a.Name == name {
+					s, pn := textFor(res, a)
+					if pn != "" {
+						return nil, "TextForAttribute panicked: " + pn
+					}
+					m[a.Properties["k"].IntegerValue] = s
+				}
+			}
+			return m, ""
+		}
+		b, berr := enclosed(base)
+		w, werr := enclosed(variant)
+		c.Feature("same-name-metamorphic-pairs")
+		if berr != "" || werr != "" {
+			c.Violate("a well-formed line with two markers of the same name open at once was not parsed: "+berr+werr, map[string]any{"line": base, "variant": variant})
+			return
+		}
+		if len(b) != 2 || b[1] != w[1] || b[2] != w[2] {
+			c.Violate("an unrelated marker pair changes the text enclosed by two markers of the same name", map[string]any{
+				"line": base, "line_with_unrelated_pair": variant, "enclosed_by_k": fmt.Sprint(b), "enclosed_by_k_with_unrelated_pair": fmt.Sprint(w)})
+			return
+		}
+	}
 }
